@@ -187,7 +187,7 @@ func run(c *lib.Ctx) error {
 
 	// ---- all TLC work runs concurrently (8 workers in total)
 	nBig := c.Pick(10, 120)
-	K, D := c.Pick(3, 7), c.Pick(3, 5)
+	K, D := c.Pick(3, 6), c.Pick(3, 4)
 	maxLen := 3
 	L := c.Pick(2, 3)
 	agree := c.Pick(2, 3) // BackEndsAgree is evaluated on lists up to this length
@@ -210,7 +210,7 @@ func run(c *lib.Ctx) error {
 			}
 			errs[i] = err
 		case 1: // M: internal theorems of Arith.tla
-			r, err := c.TLC("MCArithLaws", lib.TLCRun{Dir: dir, Module: "MCArithLaws", Workers: 1, Timeout: 14 * time.Minute,
+			r, err := c.TLC("MCArithLaws", lib.TLCRun{Dir: dir, Module: "MCArithLaws", Workers: c.Pick(1, 2), Timeout: 14 * time.Minute,
 				Files: map[string][]byte{"MCArithLaws.cfg": cfg(fmt.Sprintf("CONSTANT K = %d\nCONSTANT D = %d\n", K, D), "Unary", "Binary", "Ternary")}})
 			if err == nil && r.ErrKind != "" {
 				err = lib.Infra("an internal theorem of Arith.tla fails in the model: %s %s\n%s", r.ErrName, r.Err, r.ErrTrace)
@@ -285,7 +285,11 @@ func run(c *lib.Ctx) error {
 		"boundary_pool": "{0,+-1,+-2^31,+-(2^63-1),+-2^63,+-(2^63+1),2^64,10^30} + big rationals", "boundary_len": L,
 		"laws_K": K, "laws_D": D, "bignat_native_N": nBig, "back_ends_agree_len": agree})
 
-	reportRandom(c, cases, bad)
+	if want("random") {
+		if err := reportRandom(c, cases, bad); err != nil {
+			return err
+		}
+	}
 	c.Assume("TLC is trusted; Arith.tla is the reading of builtin_fn_num.d.elv, math.d.elv and language.md (Exactness); BigNat.tla is checked against TLC's native integers and algebraic identities only up to the stated bounds")
 	c.Assume("the executor converts between big.Int and base-10^4 limbs and takes the Go representation (int, *big.Int, *big.Rat, float64) of a result as its class; arguments are built by the real `num` (C05 covers it)")
 	return nil
@@ -311,12 +315,41 @@ func recordRandom(c *lib.Ctx, ev *eval.Evaler) ([]vcase, error) {
 		c.AddEvals(1)
 		cases = append(cases, vcase{cmd, args, step, obs})
 	}
-	return cases, nil
+	// vacuity guard: the last case is a copy of a recorded exact result with its value changed by
+	// one; the judge must reject it (checked in reportRandom)
+	for _, vc := range cases {
+		if vc.Obs.T == "vals" && len(vc.Obs.Vs) == 1 && vc.Obs.Vs[0].Cls == "int" && vc.Obs.Vs[0].N.IsInt64() && vc.Obs.Vs[0].N.Int64() < 1000 {
+			bad := vc
+			r := vc.Obs.Vs[0]
+			r.N = numx.ZInt(r.N.Int64() + 1)
+			bad.Obs = numx.Outcome{T: "vals", Vs: []numx.Res{r}}
+			cases = append(cases, bad)
+			return cases, nil
+		}
+	}
+	return nil, lib.Infra("no recorded case suitable for the vacuity guard")
 }
 
-func reportRandom(c *lib.Ctx, cases []vcase, bad []lib.BadCase) {
+func reportRandom(c *lib.Ctx, cases []vcase, bad []lib.BadCase) error {
 	np := 0
+	// the corrupted copy (last case) must be among the rejected ones
+	guard := len(cases) - 1
+	caught := false
 	for _, b := range bad {
+		if b.Index == guard {
+			if why, _ := b.Info[0].(string); !strings.HasPrefix(why, "np:") {
+				caught = true
+			}
+		}
+	}
+	if !caught {
+		return lib.Infra("vacuity guard: JudgeArith accepted a corrupted result")
+	}
+	cases = cases[:guard]
+	for _, b := range bad {
+		if b.Index == guard {
+			continue
+		}
 		vc := cases[b.Index]
 		why, _ := b.Info[0].(string)
 		if strings.HasPrefix(why, "np:") {
@@ -336,7 +369,9 @@ func reportRandom(c *lib.Ctx, cases []vcase, bad []lib.BadCase) {
 	c.AddTraces(len(cases) - np)
 	c.Set("random_cases", len(cases))
 	c.Set("random_cases_not_prescribed", np)
+	c.Set("vacuity_guard", "a corrupted copy of one recorded result was rejected by JudgeArith")
 	c.Logf("random: %d cases judged, %d not prescribed", len(cases), np)
+	return nil
 }
 
 func replay(c *lib.Ctx) error {
